@@ -1,2 +1,27 @@
-def run(ctx, sd):
-    ctx.notes.append("protocol-level replay binding not built yet")
+"""C06, protocol half: exact copies of accepted traffic, re-presented from elsewhere, draw nothing.
+
+Shares the driver and the specification of C05 (spec/ServerIngress.tla, harness/ingress): the genuine clients' client-to-server
+traffic is recorded from the simulated network (every UDP datagram; the TCP byte stream with its segment boundaries recovered by the
+reference decoder) and re-sent from fresh addresses / on new connections - single datagrams, the first k segments, the whole stream -
+while the original session is open, after it closed, 50 s later (key slot and timestamp still valid) and again after another genuine
+session; genuine exchanges continue in between and must be unaffected.
+"""
+import ingress
+
+
+def mine(cause):
+    return cause["cls"].startswith("replay")
+
+
+def run(ctx, wd):
+    ingress.model(ctx)
+    seeds = [ctx.seed] if not ctx.thorough() else [ctx.seed, ctx.seed + 1, ctx.seed + 2]
+    for k, sd in enumerate(seeds):
+        events = ingress.run_world(ctx, wd, sd, name="c06_%d" % k)
+        rep = [e for e in events if e["ev"] == "In" and e["adv"] and mine(e)]
+        ctx.coverage["evaluations"] += len(rep)
+        ctx.coverage["distinct_nontrivial"] += len(rep)
+        ctx.coverage["replayed_units"] = ctx.coverage.get("replayed_units", 0) + len(rep)
+        if k == 0 and rep:
+            ctx.sample({"kind": "replayed unit as logged", "event": rep[len(rep) // 2]})
+        ingress.check(ctx, wd, events, mine, "C06", "c06_%d" % k)
